@@ -3,6 +3,7 @@ package rules
 import (
 	"fmt"
 	"go/token"
+	"go/types"
 	"strings"
 
 	"golang.org/x/tools/go/ssa"
@@ -18,6 +19,8 @@ func init() {
 		Old: "\t\t\tc.mu.Lock()\n\t\t\tdefer c.mu.Unlock()\n\n\t\t\tif len(in) > 0 && out == nil {", New: "\t\t\tif len(in) > 0 && out == nil {", Expect: "out"})
 	mutant(Mutant{Rule: "R-GOSHARED", Name: "counter-outside-lock", File: "execution/exchange/coalesce.go",
 		Old: "\t\t\tmu.Lock()\n\t\t\tnumSeries += uint64(len(series))\n\t\t\tmu.Unlock()\n", New: "\t\t\tmu.Lock()\n\t\t\tmu.Unlock()\n\t\t\tnumSeries += uint64(len(series))\n", Expect: "numSeries"})
+	mutant(Mutant{Rule: "R-GOSHARED", Name: "scratch-buffer-shared-with-goroutine", File: "execution/binary/vector.go",
+		Old: "\thighCardHashes, highCardInputMap := o.hashSeries(highCardSide, keepLabels, keepName, buf)\n", New: "\tvar (\n\t\twg               sync.WaitGroup\n\t\thighCardHashes   map[uint64][]model.Series\n\t\thighCardInputMap map[uint64][]uint64\n\t)\n\twg.Add(1)\n\tgo func() {\n\t\tdefer wg.Done()\n\t\thighCardHashes, highCardInputMap = o.hashSeries(highCardSide, keepLabels, keepName, buf)\n\t}()\n", Old2: "\toutput, highCardOutputIndex, lowCardOutputIndex := o.join(", New2: "\twg.Wait()\n\toutput, highCardOutputIndex, lowCardOutputIndex := o.join(", Expect: "buf"})
 	mutant(Mutant{Rule: "R-GOSHARED", Name: "read-before-join", File: "execution/binary/vector.go",
 		Old: "\tif err := <-errChan; err != nil {\n\t\treturn err\n\t}\n\n\to.lhSampleIDs = highCardSide", New: "\to.lhSampleIDs = highCardSide\n\tif err := <-errChan; err != nil {\n\t\treturn err\n\t}\n", Expect: "highCardSide"})
 }
@@ -46,6 +49,25 @@ func ruleGoShared(p *core.Program) []core.Obligation {
 				}
 				binding := mc.Bindings[j]
 				writes := writesThrough(cf, fv)
+				// a captured scratch buffer ([]byte) handed to a call is written by the callee (label hashing,
+				// Bytes(), append-style APIs): treated as a write through the variable
+				if pt, ok := fv.Type().Underlying().(*types.Pointer); ok {
+					if sl, ok := pt.Elem().Underlying().(*types.Slice); ok {
+						if bt, ok := sl.Elem().Underlying().(*types.Basic); ok && bt.Kind() == types.Uint8 {
+							for _, r := range core.Referrers(fv) {
+								ld, ok := r.(*ssa.UnOp)
+								if !ok || ld.Op != token.MUL {
+									continue
+								}
+								for _, rr := range core.Referrers(ld) {
+									if cc := core.CallCommon(rr); cc != nil {
+										writes = append(writes, sharedWrite{ins: rr})
+									}
+								}
+							}
+						}
+					}
+				}
 				if len(writes) == 0 {
 					continue
 				}
